@@ -29,6 +29,8 @@ struct G {
     alias_n: u32,
     /// occurrences of every response-key path (indices left out), before merging
     occ: std::collections::BTreeMap<String, u32>,
+    /// the >30-item list is selected at most once per document
+    crowd_used: bool,
 }
 
 fn join(prefix: &str, key: &str) -> String {
@@ -86,7 +88,16 @@ impl G {
         let comps: Vec<&FDef> = fields.iter().filter(|f| is_composite(f) && !(no_abs && matches!(f.ret, Ret::Ent | Ret::Uni))).collect();
         let want_comp = !comps.is_empty() && depth < self.cfg.max_depth && self.budget > 2 && chance(if depth == 0 { 3 } else { 2 }, 5);
         if want_comp {
-            comps[draw(comps.len() as u32) as usize]
+            let mut pick = comps[draw(comps.len() as u32) as usize];
+            if pick.name == "crowd" {
+                if self.crowd_used || depth > 1 || !chance(1, 3) {
+                    pick = comps[draw(comps.len() as u32 - 1) as usize]; // "crowd" is the last composite
+                } else {
+                    self.crowd_used = true;
+                    self.budget = self.budget.min(3);
+                }
+            }
+            pick
         } else {
             leaves[draw(leaves.len() as u32) as usize]
         }
@@ -131,6 +142,15 @@ impl G {
             }
             _ => {
                 let fields = fields_of(ty);
+                // now and then a selection set of more than 30 fields (large join)
+                if depth == 0 && !self.cfg.dup_keys && chance(1, 40) {
+                    let leaves: Vec<&FDef> = fields.iter().filter(|f| !is_composite(f) && !f.arg).collect();
+                    for _ in 0..31 + draw(3) {
+                        let def = *leaves[draw(leaves.len() as u32) as usize];
+                        parts.push(self.field(ty, &def, depth, used, None, prefix));
+                    }
+                    return parts.join(" ");
+                }
                 let n = 1 + draw(if depth == 0 { 5 } else { 4 });
                 for _ in 0..n {
                     if self.budget <= 0 && !parts.is_empty() {
@@ -227,7 +247,7 @@ pub fn gen_operation_occ(op: &str, cfg: GenCfg) -> (String, std::collections::BT
 /// Also returns the occurrences of every response-key path before merging, and the root response
 /// keys in document order.
 pub fn gen_operation_full(op: &str, cfg: GenCfg) -> (String, std::collections::BTreeMap<String, u32>, Vec<String>) {
-    let mut g = G { cfg, budget: cfg.max_fields, frags: vec![], alias_n: 0, occ: Default::default() };
+    let mut g = G { cfg, budget: cfg.max_fields, frags: vec![], alias_n: 0, occ: Default::default(), crowd_used: false };
     let root = if op == "mutation" { "Mutation" } else { "Query" };
     let mut used = Vec::new();
     let body = g.sel_set(root, 0, &mut used, "");
@@ -247,7 +267,7 @@ pub fn gen_operation_full(op: &str, cfg: GenCfg) -> (String, std::collections::B
 
 /// A subscription document with `n_roots` root fields; returns (text, [(response key, field name, channel)]).
 pub fn gen_subscription(cfg: GenCfg, n_roots: u32, same_key: bool) -> (String, Vec<(String, String, i32)>) {
-    let mut g = G { cfg, budget: cfg.max_fields, frags: vec![], alias_n: 0, occ: Default::default() };
+    let mut g = G { cfg, budget: cfg.max_fields, frags: vec![], alias_n: 0, occ: Default::default(), crowd_used: false };
     let mut parts = vec![];
     let mut roots = vec![];
     for i in 0..n_roots {
